@@ -1,4 +1,5 @@
 import CryoCat.Gen.C19
+import CryoCat.Model.Particle
 /-! C19 — executable model of `ribana.trace_chains` (with `get_nn_dist`, `add_chain_suffix`,
 `add_chain_prefix`). Mathlib-free, polymorphic in the number type `α` of (squared) distances.
 
@@ -299,4 +300,56 @@ def runAll (o : Opts) (cs : List (Cfg α)) : List (ORow α) :=
   cs.zipIdx.flatMap (fun (c, t) => (run o c).nfm.map (fun r => (t, r)))
 
 end
+/-! ### clause 1, second half: the row returned for a particle IS that particle
+
+`trace_chains` writes three columns (`store_idx1`, `store_idx2`, `store_dist`; defaults `object_id`,
+`geom2`, `geom4`) and returns, for every traced position, the row of the ENTRY list
+(`fm_entry.df.iloc[[p_idx]]`).  "Returns every particle" therefore means: in each of the other 17
+fields the returned row carries the value the entry list holds for that particle. -/
+
+/-- the three columns tracing writes -/
+structure Store where
+  idx1 : Field
+  idx2 : Field
+  dist : Field
+deriving DecidableEq, Repr
+
+/-- the documented defaults (written by hand; `Props/C19.store_documented`) -/
+def Store.documented : Store := ⟨.object_id, .geom2, .geom4⟩
+
+def Store.ofNames (l : List String) : Option Store :=
+  match l.map Field.ofName? with
+  | [some a, some b, some c] => some ⟨a, b, c⟩
+  | _ => none
+
+/-- what the signature of `trace_chains` says today -/
+def Store.gen : Option Store := Store.ofNames Gen.C19.storeDefaults
+
+def Store.writes (st : Store) (f : Field) : Bool := f == st.idx1 || f == st.idx2 || f == st.dist
+
+/-- the fields tracing must leave alone -/
+def otherFields (st : Store) : List Field := Field.all.filter (fun f => !st.writes f)
+
+/-- output row with all 20 fields: tomogram number, position in the tomogram, the returned row -/
+abbrev PRow (β : Type) := Nat × Nat × Particle β
+
+/-- verified checker (runs on the IMPLEMENTATION's output): every returned row agrees with the
+entry-list row of its particle in every field tracing does not write -/
+def chkFields {β : Type} [DecidableEq β] (st : Store) (entry : Nat → Nat → Particle β) (out : List (PRow β)) : Bool :=
+  out.all (fun r => (otherFields st).all (fun f => decide (r.2.2.get f = (entry r.1 r.2.1).get f)))
+
+section
+variable {α β : Type}
+
+/-- the particle the model returns for a traced row: the entry-list row with the three store
+columns overwritten (`ofInt`/`ofDist` embed object/order numbers and distances into the column type) -/
+def emit (st : Store) (ofInt : Int → β) (ofDist : α → β) (entry : Nat → Particle β) (r : Row α) : Particle β :=
+  (((entry r.idx).set st.idx1 (ofInt r.obj)).set st.idx2 (ofInt r.ord)).set st.dist (ofDist r.dist)
+
+/-- all returned particles of the model, tomogram by tomogram -/
+def emitAll (st : Store) (ofInt : Int → β) (ofDist : α → β) (entry : Nat → Nat → Particle β)
+    (out : List (ORow α)) : List (PRow β) :=
+  out.map (fun r => (r.1, r.2.idx, emit st ofInt ofDist (entry r.1) r.2))
+end
+
 end CryoCat.C19
